@@ -157,6 +157,7 @@ let vec_machine () : machine =
      | "sscale" -> let s = reg (a 1) in guard (not (is_zero (q_of_tok (a 2)))) (fun () -> sv.(s) <- Model.sv_scale (q_of_tok (a 2)) sv.(s))
      | "ssort" -> let s = reg (a 1) in sv.(s) <- Model.sv_sort sv.(s)
      | "sassign" -> let s = reg (a 1) and u = reg (a 2) in guard (s <> u) (fun () -> sv.(s) <- Model.sv_assign sv.(u))
+     | "sappend" -> let s = reg (a 1) and u = reg (a 2) in guard (s <> u) (fun () -> sv.(s) <- Model.sv_add_list sv.(u) sv.(s))
      | "sfromd" -> sv.(reg (a 1)) <- Model.sv_of_dv d.(reg (a 2))
      | "sfromss" -> let y = reg (a 2) in guard x.(y).Model.ss_setup (fun () -> sv.(reg (a 1)) <- Model.sv_of_ss x.(y))
      | "sdot" -> let s = reg (a 1) and u = reg (a 2) in
